@@ -288,11 +288,17 @@ func forkSwitch(t *chainprop.Trans, n int, alt string) bool {
 	if err := Fol.Add(fb); err != nil {
 		panic(err)
 	}
-	// old-branch reference: the un-switched node
-	Old, err := world.OpenAs(t.Opts, t.St.Img, t.St.Now, o.KeyIdx)
+	// old-branch reference: the un-switched node plus one follower block (a node that crashed before the
+	// rollback became visible stays on its branch and must be able to continue there)
+	Old, err := world.Open(t.Opts, t.St.Img, t.Now+20)
 	if err != nil {
 		panic(err)
 	}
+	ofb := Old.Propose(t.Now + 20)
+	if err := Old.Add(ofb); err != nil {
+		panic(err)
+	}
+	oldHead := Old.Chain.Head.Height() - 1
 	what := fmt.Sprintf("fork switch (ResetTo %d, then %d fork blocks)", target, len(fork))
 	for k := 0; k <= len(cdb.Log); k++ {
 		// a crash before the rollback became visible leaves the node on the old branch: equally consistent
@@ -304,7 +310,7 @@ func forkSwitch(t *chainprop.Trans, n int, alt string) bool {
 			ph := probe.Chain.Head
 			if ob := Old.Chain.GetBlockHeaderByHeight(ph.Height()); ob != nil && ob.Hash() == ph.Hash() && ph.Height() > target {
 				ref = Old
-				top = Old.Chain.Head.Height()
+				top = oldHead
 			}
 		}
 		lowest := uint64(1)
